@@ -3,7 +3,7 @@ CONSTANTS
   N = 3
   MaxDepth = 4
   SpecSet = {"s2"}
-  SizeSet = {"dyn"}
+  SizeSet = {"A", "dyn"}
   TermSet = {1}
   FaultSteps = {"open", "step"}
 VIEW DumpView
